@@ -2,45 +2,46 @@
 import rules
 from rules import fn_into_verus, loop_spec, ghost, closure_annot, after, before, body_start, body_end, fn_end
 
-L = ("C01", "C02", "C03", "C12", "C20")
+U = ("C01", "C02", "C03", "C12", "C20")   # unit tags (C12: Verus' own safety obligations)
+L = ("C01", "C02", "C03", "C20")          # functional clauses
 
 
 def apply(ctx, W):
     # ------------------------------------------------------------------ semantic/types.rs
     fw = W.file("semantic/types.rs")
-    fn, u = fn_into_verus(ctx, fw, "ItemDefinition::resolved", ret="r", tags=L, ensures=[
+    fn, u = fn_into_verus(ctx, fw, "ItemDefinition::resolved", ret="r", tags=U, ensures=[
         "r == (match self.state { ItemState::Resolved(x) => Some(&x), _ => None::<&ItemStateResolved> })"])
-    fn, u = fn_into_verus(ctx, fw, "ItemDefinition::size", ret="r", tags=L, ensures=[
+    fn, u = fn_into_verus(ctx, fw, "ItemDefinition::size", ret="r", tags=U, ensures=[
         "r == (match self.state { ItemState::Resolved(x) => Some(x.size), _ => None::<usize> })"])
     closure_annot(ctx, fw, u, fw.closure(fn, 1), params=["r: &ItemStateResolved"], ret="o: usize", ensures=["o == r.size"])
-    fn, u = fn_into_verus(ctx, fw, "ItemDefinition::alignment", ret="r", tags=L, ensures=[
+    fn, u = fn_into_verus(ctx, fw, "ItemDefinition::alignment", ret="r", tags=U, ensures=[
         "r == (match self.state { ItemState::Resolved(x) => Some(x.alignment), _ => None::<usize> })"])
     closure_annot(ctx, fw, u, fw.closure(fn, 1), params=["r: &ItemStateResolved"], ret="o: usize", ensures=["o == r.alignment"])
-    fn_into_verus(ctx, fw, "Type::is_array", ret="r", tags=L, ensures=["r == (self is Array)"])
+    fn_into_verus(ctx, fw, "Type::is_array", ret="r", tags=U, ensures=["r == (self is Array)"])
 
-    fn, u = fn_into_verus(ctx, fw, "Type::size", ret="r", tags=L, decreases="self", ensures=[
+    fn, u = fn_into_verus(ctx, fw, "Type::size", ret="r", tags=U, decreases="self", ensures=[
         ("r == ty_size(*self, type_registry)", L)])
     closure_annot(ctx, fw, u, fw.closure(fn, 1), params=["t: &ItemDefinition"], ret="r: Option<usize>",
                   ensures=["r == (match t.state { ItemState::Resolved(x) => Some(x.size), _ => None::<usize> })"])
     closure_annot(ctx, fw, u, fw.closure(fn, 2), params=["s: usize"], ret="r: Option<usize>",
                   ensures=["r == (if s * *count <= usize::MAX { Some((s * *count) as usize) } else { None::<usize> })"])
-    fn, u = fn_into_verus(ctx, fw, "Type::alignment", ret="r", tags=L, decreases="self", ensures=[
+    fn, u = fn_into_verus(ctx, fw, "Type::alignment", ret="r", tags=U, decreases="self", ensures=[
         ("r == ty_align(*self, type_registry)", L)])
     closure_annot(ctx, fw, u, fw.closure(fn, 1), params=["t: &ItemDefinition"], ret="r: Option<usize>",
                   ensures=["r == (match t.state { ItemState::Resolved(x) => Some(x.alignment), _ => None::<usize> })"])
 
     # ------------------------------------------------------------------ semantic/type_registry.rs
     fw = W.file("semantic/type_registry.rs")
-    fn_into_verus(ctx, fw, "TypeRegistry::pointer_size", ret="r", tags=L, ensures=["r == self.pointer_size"])
-    fn_into_verus(ctx, fw, "TypeRegistry::get", ret="r", tags=L, ensures=[
+    fn_into_verus(ctx, fw, "TypeRegistry::pointer_size", ret="r", tags=U, ensures=["r == self.pointer_size"])
+    fn_into_verus(ctx, fw, "TypeRegistry::get", ret="r", tags=U, ensures=[
         "r == (if self.types@.contains_key(*item_path) { Some(&self.types@[*item_path]) } else { None::<&ItemDefinition> })"])
-    fn_into_verus(ctx, fw, "TypeRegistry::padding_type", mode="T", ret="r", tags=L,
+    fn_into_verus(ctx, fw, "TypeRegistry::padding_type", mode="T", ret="r", tags=U,
                   requires=["reg_wf(self)"], ensures=["r == pad_type(bytes as nat)"])
 
     # ------------------------------------------------------------------ semantic/type_definition/mod.rs
     fw = W.file("semantic/type_definition/mod.rs")
-    fn_into_verus(ctx, fw, "Region::size", ret="r", tags=L, ensures=["r == ty_size(self.type_ref, type_registry)"])
-    fn_into_verus(ctx, fw, "Region::unnamed_field", ret="r", tags=L, ensures=[
+    fn_into_verus(ctx, fw, "Region::size", ret="r", tags=U, ensures=["r == ty_size(self.type_ref, type_registry)"])
+    fn_into_verus(ctx, fw, "Region::unnamed_field", ret="r", tags=U, ensures=[
         "r == (Region { visibility: Visibility::Private, name: None, doc: None, type_ref, is_base: false })"])
 
     # W4: hoist `struct Regions` + `impl Regions` out of resolve_regions
@@ -52,7 +53,7 @@ def apply(ctx, W):
 pub assume_specification [<Regions as Default>::default] () -> (r: Regions)
     ensures r.regions@.len() == 0, r.last_address == 0;
 """)
-    fn, u = fn_into_verus(ctx, fw, "resolve_regions/Regions::push", ret="r", tags=L, unit="semantic::type_definition::Regions::push",
+    fn, u = fn_into_verus(ctx, fw, "resolve_regions/Regions::push", ret="r", tags=U, unit="semantic::type_definition::Regions::push",
         requires=["old(self).last_address == sum_sizes(old(self).regions@, type_registry)",
                   "all_sized(old(self).regions@, type_registry)"],
         ensures=[
@@ -71,7 +72,7 @@ pub assume_specification [<Regions as Default>::default] () -> (r: Regions)
     ghost(ctx, fw, u, before(fw, fw.method_calls(fn, "push")[0]),
           "proof { assert(self.regions@.push(region).drop_last() == self.regions@); }")
 
-    fn, u = fn_into_verus(ctx, fw, "resolve_regions", ret="res", tags=L,
+    fn, u = fn_into_verus(ctx, fw, "resolve_regions", ret="res", tags=U,
         requires=["reg_wf(&old(semantic).type_registry)"],
         ensures=[
             ("""res is Ok && res->Ok_0 is Some ==> ({
@@ -158,6 +159,6 @@ pub assume_specification [<Regions as Default>::default] () -> (r: Regions)
 
     # callee of resolve_regions, trusted for now
     vf = W.file("semantic/type_definition/vftable.rs")
-    fn_into_verus(ctx, vf, "build", mode="T", ret="res", tags=L,
+    fn_into_verus(ctx, vf, "build", mode="T", ret="res", tags=U,
         requires=["reg_wf(&old(semantic).type_registry)"],
         ensures=["reg_wf(&final(semantic).type_registry)"])
